@@ -8,7 +8,9 @@
 (* round ran on a fresh slot.  Events, ordered by the number each took     *)
 (* from one SeqCst counter (call start: before the call, call end: after   *)
 (* it returned):                                                           *)
-(*   {"e":"Reset","n":round}                                               *)
+(*   {"e":"Reset","n":round,"slot":"fresh|shared|internal"}                *)
+(*        the kind of slot the round runs on; an initialiser may only use  *)
+(*        the entry points of that kind (KindsFor)                         *)
 (*   {"e":"InitCall","i":tag,"k":kind}                                     *)
 (*   {"e":"InitRet","i":tag,"r":"some|nil|ok|panic","own":bool}            *)
 (*   {"e":"ObsCall","o":id,"op":op,"via":entry point,"tmo":timeout}        *)
@@ -30,14 +32,15 @@ EXTENDS Slot, Json, IOUtils
 
 Rec == ndJsonDeserialize(IOEnv.TRACE)
 
-VARIABLE l      \* next event to match
+VARIABLES l,       \* next event to match
+          target   \* the kind of slot of the current round
 
-tvars == <<vars, l>>
+tvars == <<vars, l, target>>
 
 IsEv(name) == l <= Len(Rec) /\ Rec[l].e = name
 Ev == Rec[l]
 
-TInit == Init /\ l = 1
+TInit == Init /\ l = 1 /\ target = "none"
 
 \* a new round on a fresh slot; nothing of the previous round may be pending
 TReset ==
@@ -57,9 +60,14 @@ TReset ==
     /\ omust' = [o \in Observers |-> FALSE]
     /\ seenEnabled' = FALSE
     /\ obsLog' = {}
+    /\ target' = Ev.slot
     /\ l' = l + 1
 
-TInitCall == IsEv("InitCall") /\ Ev.i \in Inits /\ InitCall(Ev.i, Ev.k) /\ l' = l + 1
+TInitCall ==
+    /\ IsEv("InitCall") /\ Ev.i \in Inits
+    /\ Ev.k \in KindsFor(target)
+    /\ InitCall(Ev.i, Ev.k)
+    /\ l' = l + 1 /\ UNCHANGED target
 
 \* the result is the one the specification determines; a successful initialiser is handed
 \* references to its own components
@@ -67,9 +75,11 @@ TInitRet ==
     /\ IsEv("InitRet") /\ Ev.i \in Inits
     /\ InitRet(Ev.i, Ev.r)
     /\ Success(Ev.r) => Ev.own
-    /\ l' = l + 1
+    /\ l' = l + 1 /\ UNCHANGED target
 
-TObsCall == IsEv("ObsCall") /\ Ev.o \in Observers /\ ObsCall(Ev.o, Ev.op) /\ l' = l + 1
+TObsCall ==
+    /\ IsEv("ObsCall") /\ Ev.o \in Observers /\ ObsCall(Ev.o, Ev.op)
+    /\ l' = l + 1 /\ UNCHANGED target
 
 \* the observation is the one the read determines: the same tag in every component the
 \* operation exercises, is_enabled accordingly, never a panic; flush returns true on the empty
@@ -85,25 +95,25 @@ TObsRet ==
           /\ (res.op = "flush" /\ ~res.en) => Ev.fl /\ Ev.fa = 0
           /\ (res.op = "flush" /\ res.en) => Ev.fa # 0 /\ (Ev.fl <=> Ev.fa = 2)
           /\ ObsRet(Ev.o, res)
-    /\ l' = l + 1
+    /\ l' = l + 1 /\ UNCHANGED target
 
 \* end of a round: only the installed configuration's components were ever invoked
 TTally ==
     /\ IsEv("Tally")
     /\ \A i \in Inits : Ev.used[i] > 0 => slot = i
-    /\ UNCHANGED vars
+    /\ UNCHANGED <<vars, target>>
     /\ l' = l + 1
 
 \* internal steps
-TTrySet == \E i \in Inits : TrySet(i) /\ UNCHANGED l
-TRead == \E o \in Observers : Read(o) /\ UNCHANGED l
+TTrySet == \E i \in Inits : TrySet(i) /\ UNCHANGED <<l, target>>
+TRead == \E o \in Observers : Read(o) /\ UNCHANGED <<l, target>>
 
 TNext == TReset \/ TInitCall \/ TInitRet \/ TObsCall \/ TObsRet \/ TTally \/ TTrySet \/ TRead
 
 TSpec == TInit /\ [][TNext]_tvars
 
 \* obsLog only grows within a round; it is not needed to decide a trace
-TView == <<slot, ipc, ikind, ires, opc, oop, oread, ocount, l>>
+TView == <<slot, ipc, ikind, ires, opc, oop, oread, ocount, l, target>>
 
 NCalls == Cardinality({k \in 1..Len(Rec) : Rec[k].e \in {"InitCall", "ObsCall"}})
 
